@@ -61,3 +61,19 @@ def register(mut):
         { decltype(_blocked) tmp; while (_blocked.size() > 1) { tmp.push(std::move(_blocked.front())); _blocked.pop(); } _blocked = std::move(tmp); }
         lk.unlock();
         return front.second.set_exception(e);''', ['C10'])
+    mut('sched-heap-reversed', 'scheduler.h',
+        '''        return a._tp > b._tp;''',
+        '''        return a._tp < b._tp;''', ['C12'])
+    mut('sched-expired-strict', 'scheduler.h',
+        '''        while (!_scheduled.empty() && (_scheduled[0]._tp <= now || !_scheduled[0]._p)) {''',
+        '''        while (!_scheduled.empty() && (_scheduled[0]._tp < now || !_scheduled[0]._p)) {''', ['C12'])
+    mut('sched-no-notify-on-earlier', 'scheduler.h',
+        '''          bool ntf = _scheduled.empty() || _scheduled[0]._tp > tp;''',
+        '''          bool ntf = _scheduled.empty();''', ['C12'])
+    mut('sched-stop-notify-unlocked', 'scheduler.h',
+        '''            std::lock_guard _(_mx);
+            _cond.notify_all();''',
+        '''            _cond.notify_all();''', ['C12'])
+    mut('sched-cancel-wrong-default-exception', 'scheduler.h',
+        '''        return cancel(id, std::make_exception_ptr(await_canceled_exception()));''',
+        '''        return cancel(id, std::make_exception_ptr(value_not_ready_exception()));''', ['C12'])
